@@ -47,9 +47,13 @@ def gen_plan(seed: int, run: int, tier: str) -> dict:
                     uid += 1
                     recs.append({"id": uid, "pad": rng.choice([0, 1, 7, 40, 120, 300, 300, 4100, 9000]), "mb": rng.random() < 0.4})
                 ops.append({"op": "append", "recs": recs})
+            elif rng.random() < 0.08:
+                # the journal stays idle for longer than any grace period (virtual time)
+                ops.append({"op": "idle", "dur": rng.choice([35.0, 120.0, 4000.0])})
             else:
                 ops.append({"op": "read", "from": rng.choice(["zero", "cached", "cached", "last", "beyond", "abs"]), "arg": rng.randint(0, 12)})
-        tasks["t%d" % i] = {"ops": ops}
+        # wall-clock skew of this process against the file server's clock (mtimes)
+        tasks["t%d" % i] = {"ops": ops, "skew": rng.choice([0.0, 0.0, 0.0, 120.0, -120.0, 3600.0])}
     cfg = {
         "lock": rng.choice(["sym", "open"]),
         "grace_period": rng.choice([None, 3, 10, 30]),
@@ -58,6 +62,7 @@ def gen_plan(seed: int, run: int, tier: str) -> dict:
         "chunk_seed": rng.getrandbits(30),
         "p_line": rng.choice([0.02, 0.08, 0.25]),
         "p_seam": rng.choice([0.1, 0.3, 0.6]),
+        "short_writes": rng.random() < 0.3,
     }
     return {"check": ID, "seed": seed, "run": run, "cfg": cfg, "tasks": tasks, "sched": {"seed": rng.getrandbits(48)}}
 
@@ -71,7 +76,7 @@ def signature_class(sig: str) -> str:
 
 
 def sample_view(plan: dict, res: dict) -> dict:
-    return {"cfg": plan["cfg"], "tasks": {n: [o["op"] + (":%d" % len(o["recs"]) if o["op"] == "append" else ":" + o["from"]) for o in t["ops"]] for n, t in plan["tasks"].items()}, "switches": res["switches"]}
+    return {"cfg": plan["cfg"], "tasks": {n: [o["op"] + (":%d" % len(o["recs"]) if o["op"] == "append" else ":" + str(o.get("from", o.get("dur")))) for o in t["ops"]] for n, t in plan["tasks"].items()}, "switches": res["switches"]}
 
 
 def payload(rec: dict, task: str) -> dict:
@@ -152,7 +157,12 @@ def _run(plan: dict, sim: sched.Sim, ch: sched.Chooser, dep: deploy.Deployment) 
         return b
 
     pending: dict[str, list[dict]] = {}
-    proc = {n: sim.proc("P" + n) for n in sorted(plan["tasks"])}
+    proc = {n: sim.proc("P" + n, skew=float(plan["tasks"][n].get("skew", 0.0))) for n in sorted(plan["tasks"])}
+    if cfg.get("short_writes"):
+        import random as _r
+
+        srng = _r.Random(cfg.get("chunk_seed", 1) ^ 0x51)
+        fs.short_writer = lambda task, n: n if n <= 1 or srng.random() < 0.5 else srng.randrange(1, n)
     backends = {n: mk_backend() for n in sorted(plan["tasks"])}
 
     def resolve_from(b: Any, spec: str, arg: int) -> int:
@@ -187,6 +197,9 @@ def _run(plan: dict, sim: sched.Sim, ch: sched.Chooser, dep: deploy.Deployment) 
             for op in t["ops"]:
                 if verdict:
                     return
+                if op["op"] == "idle":
+                    sim.sleep(op["dur"])
+                    continue
                 if op["op"] == "append":
                     logs = [payload(r, name) for r in op["recs"]]
                     pending[name] = list(logs)
